@@ -384,6 +384,14 @@ theorem throughout_open_from_start (c : Cfg) (hnd : (c.members.map (·.name)).No
     ((start c).aud m.name).auditing = true :=
   start_opens c hnd m hm hu h
 
+/-- … and it **stays open until the final round**: after the start round and after every event the auditor is
+inside its period (as long as nothing aborted), so no `stop` occurs before the end of the play; the final round then
+closes it (`all_closed`) with the one end-of-period judgement (`exactly_one_end`). -/
+theorem throughout_open_until_the_end (c : Cfg) (hnd : (c.members.map (·.name)).Nodup) (m : Member)
+    (hm : m ∈ c.members) (hu : Unconditional m) (evs : List Ev) (h : (preFinal c evs).abort = none) :
+    ((preFinal c evs).aud m.name).auditing = true :=
+  preFinal_open c hnd m hm hu evs h
+
 /-- witness of the defect (kernel evaluation): with the rule before the repair `q` is never judged … -/
 theorem woken_rule_never_judges :
     proj "q" (runWoken exThroughout [] 10).out.reverse = [] ∧ (runWoken exThroughout [] 10).abort = none := by
